@@ -9,6 +9,8 @@ non-zero, so that lib/vlib.py classifies the crash and restarts at k+1."""
 import os, subprocess, sys
 
 here = os.path.dirname(os.path.abspath(__file__))
+# per-run limit of one binary (the thorough tier's case file is large; checks/c15.py sets this)
+TIMEOUT = int(os.environ.get('LV_C15_TIMEOUT', '100'))
 args = sys.argv[1:]
 
 
@@ -29,7 +31,7 @@ def parse(out):
 runs = []
 for name in ('harness-d5', 'harness-d4'):
     try:
-        p = subprocess.run([os.path.join(here, name)] + args, stdout=subprocess.PIPE, stderr=subprocess.PIPE, timeout=100)
+        p = subprocess.run([os.path.join(here, name)] + args, stdout=subprocess.PIPE, stderr=subprocess.PIPE, timeout=TIMEOUT)
         rc, out, err = p.returncode, p.stdout.decode(errors='replace'), p.stderr.decode(errors='replace')
     except subprocess.TimeoutExpired as ex:
         rc, out, err = -9, (ex.stdout or b'').decode(errors='replace'), (ex.stderr or b'').decode(errors='replace') + '\n[timeout]'
